@@ -1,5 +1,7 @@
 import Mochi.Model.Broker
 import Mochi.Props.C26
+import Mochi.Props.C07
+import Mochi.Lemmas.BrokerWellFormedOut
 /-!
 # C23 — Everything the broker writes is well-formed for the client's protocol version
 
@@ -59,3 +61,146 @@ example :
     (disconnectClient s 1 0x8E).2.head? = some (.wrote 7 (.disconnect 5 0x8E)) := by decide
 
 end Mochi.Broker
+
+/-! ## Broker level (model M3): what `step` writes, for which version, in which order
+
+`Mochi/Lemmas/BrokerWellFormedOut.lean` walks every function of the sequential broker that writes.  The theorems
+below hold for every state satisfying `W23.Inv` (one connection per object, the tables point at existing objects, a
+stopped object is closed: `C23_inv_reachable` — every state reached from `init` by covered ops with fresh connection
+numbers) and every op but `.connectHold` / `.release` (`W23.Covered`; the two ops that park / resume a CONNECTING
+handler inside `attachClient` are NOT covered — that is why the version theorem is `_partial`).
+-/
+namespace Mochi.Broker
+open Mochi.Topics
+
+/-- the hypotheses of the op-level theorems hold in every state reached from `init` by covered ops -/
+theorem C23_inv_reachable (caps : Caps) (ops : List Op) (hc : ∀ op ∈ ops, W23.Covered op = true)
+    (hf : OpsFresh (init caps) ops) : W23.Inv (run (init caps) ops) := W23.Inv_run caps ops hc hf
+
+/-- **version agreement.**  Every packet an op writes to connection `conn` is encoded for the protocol version of
+    the client object the connection table maps `conn` to (the RECEIVER's version for fan-out writes; for a CONNECT
+    the object is created in the step, hence the post-state).
+    FULL statement = this for every `op`; missing: `.connectHold`, `.release`. -/
+theorem C23_written_version_matches_partial (s : Server) (op : Op) (h : W23.Inv s) (hc : W23.Covered op = true)
+    (hf : OpFresh s op) (conn : Nat) (pk : WPk) (hw : Out.wrote conn pk ∈ (step s op).2) :
+    ∃ j, assocGet (step s op).1.connOf conn = some j ∧ j < (step s op).1.objs.length ∧
+      ∀ v, W23.verOf pk = some v → v = (getObj (step s op).1 j).ver :=
+  W23.step_version s op h hc hf conn pk hw
+
+/-- **MQTT 3 SUBACK codes, every covered op.**  A SUBACK encoded for MQTT 3 carries only 0, 1, 2, 0x80 — in every
+    state of the invariant, for every covered op, whatever the packet identifier (before fix e36320d the statement
+    needed the exception "or 0x91 for every filter": the counterexample of this theorem was replayed on the real
+    broker and repaired; `C23_v3_suback_in_use_downgraded` is the same history now) -/
+theorem C23_v3_suback_codes_all (s : Server) (op : Op) (h : W23.Inv s) (hc : W23.Covered op = true)
+    (hf : OpFresh s op) (conn v id : Nat) (rcs : List Nat) (hw : Out.wrote conn (.suback v id rcs) ∈ (step s op).2)
+    (hv : v < 5) : ∀ c ∈ rcs, W23.V3SubCode c :=
+  W23.step_shape s op h hc hf conn _ hw hv
+
+/-- **MQTT 3 SUBACK codes.**  SUBSCRIBE from a live MQTT 3 client whose packet identifier is not in use: the op's
+    first output is the SUBACK, and every code is 0, 1, 2 or 0x80 -/
+theorem C23_v3_suback_codes (s : Server) (conn i id subId : Nat) (fs : List Sub) (L : R07.Live s conn i)
+    (hne : fs ≠ []) (hv : (getObj s i).ver < 5) (hfree : (flGet (getObj s i) id).isSome = false) :
+    ∃ rest, (step s (.recv conn (.subscribe id subId fs))).2 =
+        .wrote conn (.suback (getObj s i).ver id (fs.map (R07.subCode s i id))) :: rest ∧
+      ∀ c ∈ fs.map (R07.subCode s i id), W23.V3SubCode c := by
+  obtain ⟨rest, hr⟩ := R07.step_prefix L (.subscribe id subId fs)
+  have hh : R07.handler s i (.subscribe id subId fs) = processSubscribe s i id subId fs := by
+    show (if fs.isEmpty then _ else _) = _
+    rw [if_neg (by simpa using hne)]
+  obtain ⟨_, replay, hp⟩ := R07.processSubscribe_out L id subId fs
+  refine ⟨replay ++ rest, ?_, ?_⟩
+  · rw [hr, hh, hp]; rfl
+  · intro c hc
+    obtain ⟨sub, _, rfl⟩ := List.mem_map.mp hc
+    have fin' : ∀ x, W23.V3SubCode (R07.finCode (getObj s i).ver x) := fun x => W23.fin_v3 _ x hv
+    unfold R07.subCode
+    rw [if_neg (by rw [hfree]; decide)]
+    repeat' split
+    all_goals exact fin' _
+
+/-- **MQTT 3 CONNACK codes** (partial: the three codes of finding F23a — 0x80, 0x9A, 0x9B — excluded): the return
+    code on the wire (`v3code` of the reason code, as `WPk.render` computes it) is at most 5 -/
+theorem C23_v3_connack_codes_partial (s : Server) (op : Op) (h : W23.Inv s) (hc : W23.Covered op = true)
+    (hf : OpFresh s op) (conn v code rm mq : Nat) (sp : Bool) (sei : Option Nat)
+    (hw : Out.wrote conn (.connack v sp code rm mq sei) ∈ (step s op).2) (hv : v < 5)
+    (hF : code ≠ 0x80 ∧ code ≠ 0x9A ∧ code ≠ 0x9B) : (if code ≥ 0x80 then v3code code else code) ≤ 5 := by
+  have := W23.step_shape s op h hc hf conn _ hw hv
+  rcases this with rfl | rfl | rfl | rfl | rfl | rfl | rfl
+  · decide
+  · decide
+  · decide
+  · decide
+  · exact absurd rfl hF.1
+  · exact absurd rfl hF.2.1
+  · exact absurd rfl hF.2.2
+
+/-- … and without the exclusion: the code is one of seven -/
+theorem C23_v3_connack_code_table (s : Server) (op : Op) (h : W23.Inv s) (hc : W23.Covered op = true)
+    (hf : OpFresh s op) (conn v code rm mq : Nat) (sp : Bool) (sei : Option Nat)
+    (hw : Out.wrote conn (.connack v sp code rm mq sei) ∈ (step s op).2) (hv : v < 5) : W23.V3ConnackCode code :=
+  W23.step_shape s op h hc hf conn _ hw hv
+
+/-- **nothing follows a DISCONNECT** on its connection within one op, and every object on that connection is closed
+    at the end of the op -/
+theorem C23_nothing_follows_disconnect (s : Server) (op : Op) (h : W23.Inv s) (hc : W23.Covered op = true)
+    (hf : OpFresh s op) (o1 o2 : List Out) (conn v code : Nat)
+    (e : (step s op).2 = o1 ++ Out.wrote conn (.disconnect v code) :: o2) :
+    (∀ pk, Out.wrote conn pk ∉ o2) ∧ W23.ClosedOn (step s op).1 conn :=
+  W23.step_disc s op h hc hf o1 o2 conn v code e
+
+/-! ### concrete histories: the hypotheses are satisfiable, the conclusions not vacuous -/
+
+/-- an MQTT 3.1.1 subscriber "s" on connection 1, an MQTT 5 publisher "p" on connection 2 -/
+def c23Demo : List Op :=
+  [.connect 1 { ver := 4, id := [115] }, .recv 1 (.subscribe 1 0 [{ filter := [97], qos := 1 }]),
+   .connect 2 { ver := 5, id := [112] }, .recv 2 (.publish 1 false false 9 [97] [120] 0 none)]
+
+/-- (connection, version the packet is encoded for) of every write -/
+def c23Tags (o : List Out) : List (Nat × Option Nat) :=
+  o.filterMap (fun x => match x with | .wrote c pk => some (c, W23.verOf pk) | _ => none)
+
+set_option maxRecDepth 1000000 in
+/-- the publisher's PUBACK is encoded for MQTT 5, the copy delivered to the subscriber for MQTT 4 -/
+theorem C23_demo_versions : (R07.outsOf (init {}) c23Demo).map c23Tags =
+    [[(1, some 4)], [(1, some 4)], [(2, some 5)], [(2, some 5), (1, some 4)]] := by decide
+
+set_option maxRecDepth 1000000 in
+theorem C23_demo_valid : (∀ op ∈ c23Demo, W23.Covered op = true) ∧ OpsFresh (init {}) c23Demo := by
+  refine ⟨by decide, by decide⟩
+
+set_option maxRecDepth 1000000 in
+/-- **fixed (e36320d): SUBACK for a packet identifier in use, MQTT 3 client.**  An MQTT 3.1.1 client sends a QoS 2
+    PUBLISH with packet identifier 7 (the PUBREC record is filed under 7 in the one in-flight map, F10) and then
+    SUBSCRIBE with identifier 7: the refusal 0x91, which MQTT 3 does not define, is downgraded to 0x80 (before the fix
+    this history ended in `suback 4 7 [0x91]`, on the model and on the real broker) -/
+theorem C23_v3_suback_in_use_downgraded :
+    (R07.outsOf (init {}) [.connect 1 { ver := 4, id := [99] }, .recv 1 (.publish 2 false false 7 [97] [120] 0 none),
+      .recv 1 (.subscribe 7 0 [{ filter := [97] }])]).getLast? = some [.wrote 1 (.suback 4 7 [0x80])] := by decide
+
+set_option maxRecDepth 1000000 in
+/-- **F23a** on the initial state: an MQTT 3 CONNECT with an empty client id and Clean Session 0 is refused with the
+    raw MQTT 5 code 0x80 (rendered `!bad(connack-return-code-128-…)` by the independent decoder) -/
+theorem C23_F23a_counterexample :
+    (step (init {}) (.connect 1 { ver := 4, clean := false, id := [] })).2 =
+      [.wrote 1 (.connack 4 false 0x80 1024 2 none), .closed 1] := by decide
+
+set_option maxRecDepth 1000000 in
+/-- a take-over: the DISCONNECT (0x8E) goes to the old connection, encoded for ITS version (4: finding F23b), nothing
+    more is written to connection 1; the CONNACK on connection 2 follows -/
+theorem C23_demo_takeover :
+    (R07.outsOf (init {}) [.connect 1 { ver := 4, id := [112] }, .connect 2 { ver := 5, id := [112] }]).getLast? =
+      some [.wrote 1 (.disconnect 4 0x8E), .closed 1, .wrote 2 (.connack 5 false 0 1024 2 none)] := by decide
+
+end Mochi.Broker
+
+#print axioms Mochi.Broker.C23_inv_reachable
+#print axioms Mochi.Broker.C23_written_version_matches_partial
+#print axioms Mochi.Broker.C23_v3_suback_codes_all
+#print axioms Mochi.Broker.C23_v3_suback_codes
+#print axioms Mochi.Broker.C23_v3_connack_codes_partial
+#print axioms Mochi.Broker.C23_v3_connack_code_table
+#print axioms Mochi.Broker.C23_nothing_follows_disconnect
+#print axioms Mochi.Broker.C23_demo_versions
+#print axioms Mochi.Broker.C23_v3_suback_in_use_downgraded
+#print axioms Mochi.Broker.C23_F23a_counterexample
+#print axioms Mochi.Broker.C23_demo_takeover
